@@ -717,7 +717,13 @@ class Interp:
         return out
 
     def st_With(self, st, frame):
-        raise CannotEvaluate("with statement")
+        for item in st.items:
+            v = self.eval(item.context_expr, frame)
+            if not isinstance(v, ops.FileVal):
+                raise CannotEvaluate("with statement over an unmodelled context manager")
+            if item.optional_vars is not None:
+                self.assign(item.optional_vars, v, frame)
+        self.exec_block(st.body, frame)
 
     def st_FunctionDef(self, st, frame):
         f = Func(frame.module, st, cls=None, outer=frame.func)
